@@ -4,14 +4,8 @@ CONSTANTS
   Amps <- Amps2
   AmpsL <- Amps2
   Pin = 2
-  Mutant = "none"
+  Mutant = "axes_not_swapped"
   ExemptKnown = TRUE
   Emit = FALSE
 INVARIANT RouteGivesDense
-INVARIANT RdmGivesDense
-INVARIANT RdmShape
-INVARIANT OperatorGivesDense
-INVARIANT Laws
-INVARIANT OpsDiscriminate
-INVARIANT TableSane
 CHECK_DEADLOCK FALSE
